@@ -15,7 +15,7 @@ ID = "C02"
 LEVEL = "exploration"
 # a run stuck inside C code (beyond the reach of a Python signal handler) is
 # cut off by a watchdog thread after this many seconds (core._hard_hangs)
-RUN_HARD_TIMEOUT = 60
+RUN_HARD_TIMEOUT = 120
 RULE = ("each run = one curve (toy 85%: every (e, r, s) class incl. R = O "
         "and x(R) >= n is hit; named 15%), two keys, 6-12 deliveries of "
         "(signature, message or digest, verifier key, hash, decoder, "
